@@ -82,30 +82,32 @@ Fixpoint occs_within (m s : str) (n i : nat) : list nat :=
   end.
 
 (** match of the cut regexp starting at the head of [s] (which is at a position where
-    the rest of its line is [line_len s] long): returns the length of the match *)
-Definition match_here (m s : str) : option nat :=
-  let ll := line_len s in
+    the rest of its line is [line_len s] long): returns the length of the match.
+    [try_end m s p]: with the first marker at offset p (the end of .+), where the match ends *)
+Definition try_end (m s : str) (p : nat) : option nat :=
   let ml := List.length m in
+  let q0 := (p + ml)%nat in
+  let rest := skipn q0 s in
+  let rl := line_len rest in                       (* .* can take up to the end of the line *)
+  match find_from m (skipn rl rest) 0 with
+  | Some k => Some (q0 + rl + k + ml)%nat              (* an occurrence at or after the end of the line: lazy part stops at the first *)
+  | None =>
+      (* otherwise .* backs off to the last occurrence on the rest of this line *)
+      match rev (occs_within m rest (S rl) 0) with
+      | last :: _ => Some (q0 + last + ml)%nat
+      | [] => None
+      end
+  end.
+
+Fixpoint first_some (f : nat -> option nat) (l : list nat) : option nat :=
+  match l with
+  | [] => None
+  | p :: l' => match f p with Some e => Some e | None => first_some f l' end
+  end.
+
+Definition match_here (m s : str) : option nat :=
   (* candidate ends of .+ : occurrences of m on this line at offset >= 1, greedy = last first *)
-  let cands := rev (List.filter (fun p => Nat.leb 1 p) (occs_within m s ll 0)) in
-  let try_p (p : nat) : option nat :=
-    let q0 := (p + ml)%nat in
-    let rest := skipn q0 s in
-    let rl := line_len rest in                       (* .* can take up to the end of the line *)
-    match find_from m (skipn rl rest) 0 with
-    | Some k => Some (q0 + rl + k + ml)%nat              (* an occurrence at or after the end of the line: lazy part stops at the first *)
-    | None =>
-        (* otherwise .* backs off to the last occurrence on the rest of this line *)
-        match rev (occs_within m rest (S rl) 0) with
-        | last :: _ => Some (q0 + last + ml)%nat
-        | [] => None
-        end
-    end in
-  (fix first_some (l : list nat) : option nat :=
-     match l with
-     | [] => None
-     | p :: l' => match try_p p with Some e => Some e | None => first_some l' end
-     end) cands.
+  first_some (try_end m s) (rev (List.filter (fun p => Nat.leb 1 p) (occs_within m s (line_len s) 0))).
 
 Fixpoint cut_aux (fuel : nat) (m s : str) : str :=
   match fuel with
